@@ -103,13 +103,15 @@ def run(ctx, replay):
     rc = rand_config(c)
     if replay:
         return corelib.replay_core(ctx, replay, rc, OBS)
-    corelib.run_core(ctx, c, invariants=["RouteOK", "TreeOK"], properties=["Isolation"], obs=OBS,
+    jobs = []          # the graphs are independent: they run side by side
+    jobs.append(lambda: corelib.run_core(ctx, c, invariants=["RouteOK", "TreeOK"], properties=["Isolation"], obs=OBS,
                      rand_count=40 if ctx.quick() else 500, rand_depth=25 if ctx.quick() else 40,
-                     rand_loggers=4 if ctx.quick() else 8, rand_cfg=rc, key_fn=explain, tag="set")
-    corelib.run_core(ctx, config_new(ctx.quick()), invariants=["RouteOK", "TreeOK"], properties=["Isolation"], obs=OBS,
-                     rand_count=0, rand_depth=0, rand_loggers=3, key_fn=explain, tag="new")
-    corelib.run_core(ctx, config_reg(ctx.quick()), invariants=["RouteOK", "TreeOK"], properties=["Isolation", "RegistryLocal"], obs=OBS,
-                     rand_count=10 if ctx.quick() else 200, rand_depth=8 if ctx.quick() else 14, rand_loggers=1, key_fn=explain, tag="reg")
+                     rand_loggers=4 if ctx.quick() else 8, rand_cfg=rc, key_fn=explain, tag="set"))
+    jobs.append(lambda: corelib.run_core(ctx, config_new(ctx.quick()), invariants=["RouteOK", "TreeOK"], properties=["Isolation"], obs=OBS,
+                     rand_count=0, rand_depth=0, rand_loggers=3, key_fn=explain, tag="new"))
+    jobs.append(lambda: corelib.run_core(ctx, config_reg(ctx.quick()), invariants=["RouteOK", "TreeOK"], properties=["Isolation", "RegistryLocal"], obs=OBS,
+                     rand_count=10 if ctx.quick() else 200, rand_depth=8 if ctx.quick() else 14, rand_loggers=1, key_fn=explain, tag="reg"))
+    corelib.run_jobs(jobs)
     ctx.assumptions += ["destinations are compared as bags: the order of Write calls across destinations is not part of the property",
                         "removal of a writer that is in the list twice may remove one or all occurrences (statement silent)",
                         "fd 1/2 of the worker process are files: the stdout/stderr fallback is observed for real"]
